@@ -245,6 +245,9 @@ func main() {
 	for _, op := range bigOps {
 		for _, cn := range bigCurveNames {
 			bigs = append(bigs, bigCase{Op: op, Curve: cn})
+			if op == "BlindPublicKeyWithContext" || op == "UnblindPublicKeyWithContext" || op == "BlindKeySignWithContext" {
+				bigs = append(bigs, bigCase{Op: op, Curve: cn, BigBlind: true})
+			}
 		}
 	}
 	r.Par(len(bigs), func(i int) {
